@@ -69,6 +69,7 @@ structure Env where
   elabHide : Item → Bool               -- the hook sets frame.hide = True (before returning / raising)
   weakrefable : Item → Bool
   genLike : Item → Bool                -- coroutine / generator / async generator object
+  frameOf : Item → Option Item         -- cr_frame / gi_frame / ag_frame of such an object
   withContexts : Bool
   ctxErrs : Item → List Nat            -- exceptions raised while analysing / filling this frame's contexts
 
@@ -155,9 +156,10 @@ def handleUnwrap (env : Env) (s : St) (q : QE) (r : UnwrapRes) : St :=
     else { s with toUnwrap := pushUnwrapped env r.children q.origin q.depth s.toUnwrap,
                   loops := s.loops + 1, errors := s.errors ++ r.iterErrs }
 
-/-- `Frame(pyframe=current, origin=origin if generator-like else None)`. -/
-def wrapOrigin (env : Env) : Option Item → Option Item
-  | some o => if env.genLike o then some o else none
+/-- The origin recorded when the raw python frame `cur` is wrapped: a coroutine / generator / async
+generator is kept only for its own frame. -/
+def wrapOrigin (env : Env) (cur : Item) : Option Item → Option Item
+  | some o => if env.genLike o && env.frameOf o == some cur then some o else none
   | none => none
 
 /-- One iteration of the inner `while to_unwrap ...` loop, for the popped entry `q`
@@ -167,7 +169,7 @@ def unwrapStep (env : Env) (s : St) (q : QE) : St :=
   | .frameObj f => { s with toElab := s.toElab ++ [⟨.frameObj f, q.depth⟩], loops := 0 }
   | .item i =>
     if env.isFrame i then
-      { s with toElab := s.toElab ++ [⟨.frameObj ⟨i, wrapOrigin env q.origin⟩, q.depth⟩], loops := 0 }
+      { s with toElab := s.toElab ++ [⟨.frameObj ⟨i, wrapOrigin env i q.origin⟩, q.depth⟩], loops := 0 }
     else handleUnwrap env s q (env.unwrap i)
   | .none => handleUnwrap env s q .none   -- singledispatch default for NoneType returns None
 
@@ -324,6 +326,36 @@ def runX (env : Env) : Nat → St → Except Crash Outcome
       | .error c => .error c
       | .ok (.inl o) => .ok o
       | .ok (.inr s'') => runX env fuel s''
+
+/-- `extract_outermost(x)`: `next(extract_iter(x, errors))` — the first frame the generator yields; if it
+finishes without yielding, raise the group / the single recorded error / a RuntimeError. -/
+inductive OutermostRes
+  | frame (f : OutFrame)
+  | raiseGroup (es : List Err)
+  | raiseRecorded (e : Err)
+  | raiseNoFrame (leaf : Leaf)
+  | outOfFuel
+  deriving DecidableEq, Repr
+
+def runFirst (env : Env) : Nat → St → OutermostRes
+  | 0, _ => .outOfFuel
+  | fuel+1, s =>
+    match unwrapPhase env (fuel+1) s with
+    | none => .outOfFuel
+    | some s' =>
+      match elabStep env s' with
+      | .inl (.done _ l es) =>
+        (match es with
+         | [] => .raiseNoFrame l
+         | [e] => .raiseRecorded e
+         | es => .raiseGroup es)
+      | .inl .outOfFuel => .outOfFuel
+      | .inr s'' =>
+        match s''.out with
+        | f :: _ => .frame f          -- the generator is suspended at its first `yield frame`
+        | [] => runFirst env fuel s''  -- unreachable: elabStep's .inr always emits
+
+def extractOutermost (env : Env) (fuel : Nat) (x : Item) : OutermostRes := runFirst env fuel (initSt env x)
 
 /-- `Stack.error`: nothing, the only exception, or an ExceptionGroup of all of them. -/
 inductive StackError
